@@ -2,18 +2,20 @@
 # Runs the C05 check (default tier quick) against every seeded change in /verif/seeded/<id>/patch.diff:
 # applies it to /repo, runs the check with output redirected away from /verif/evidence, undoes it at once.
 # usage: tools/run_seeded.sh [tier] [ids...]
+# VERIF_REPO may name a scratch clone of /repo (bulk regressions next to other work); default /repo itself.
 set -u
 cd "$(dirname "$0")/.."
 TIER=${1:-quick}; shift || true
 IDS=${*:-$(ls seeded)}
-if [ -n "$(git -C /repo status --porcelain)" ]; then echo "/repo is not clean; refusing" >&2; exit 2; fi
+R=${VERIF_REPO:-/repo}; export VERIF_REPO=$R
+if [ -n "$(git -C $R status --porcelain)" ]; then echo "$R is not clean; refusing" >&2; exit 2; fi
 for id in $IDS; do
   P=seeded/$id/patch.diff; [ -f "$P" ] || continue
   OUT=$(mktemp -d /tmp/seeded_${id}_XXXX)
-  git -C /repo apply "$PWD/$P" || { echo "$id: patch does not apply"; continue; }
+  git -C $R apply "$PWD/$P" || { echo "$id: patch does not apply"; continue; }
   t0=$(date +%s)
   VERIF_OUT=$OUT ./run C05 $TIER > $OUT/log 2>&1; rc=$?
-  git -C /repo checkout -- . ; git -C /repo clean -fdq
+  git -C $R checkout -- . ; git -C $R clean -fdq
   t1=$(date +%s)
   s=$(python3 - "$OUT" <<'PY'
 import json,glob,sys
